@@ -358,11 +358,17 @@ def numeric_search(pc: Sequence[T], goal: Optional[T], vars_: Sequence[T], rng: 
             env.update(hints)
         try:
             cache = {}
+            tm.EQ_TOL[0] = 0.0
             if all(tm.evalf(c, env, cache) for c in pc):
-                if goal is None or not tm.evalf(goal, env, cache):
+                if goal is None:
+                    return env
+                tm.EQ_TOL[0] = 1e-6   # a counter-model must violate an equality robustly, not by rounding
+                if not tm.evalf(goal, env, {}):
                     return env
         except tm.EvalError:
             continue
+        finally:
+            tm.EQ_TOL[0] = 0.0
     return None
 
 
